@@ -3,7 +3,7 @@ import ast
 import z3
 from . import ty
 from .ty import Int, Bool, NoneT, Str, Opt, Seq, Tup, List, Deque, Dict, Set, Obj, Opaque, Fun
-from .core import (Untranslatable, ContractError, Val, PyConst, PyTuple, BoundMethod, FuncRef, Closure, ProviderCall,
+from .core import (Unknown, Untranslatable, ContractError, Val, PyConst, PyTuple, BoundMethod, FuncRef, Closure, ProviderCall,
                    View, State, Outcome, Obligation, fresh, none_val, int_val, bool_val, type_heap_keys)
 from .calls import parse_expr, simp
 
@@ -119,6 +119,7 @@ def check_exit(self, o):
             self.oblige(f"{sid}.raise_post{k}", st, self.spec_truth(p, pre_env, old=entry), p)
         return
     # normal exit
+    self.covers.append((f"{c.qual}/exit.cover", list(st.pc)))
     res = o.value if o.kind == "return" and o.value is not None else none_val()
     if c.returns is not None and c.returns != NoneT and not c.yields and not self.is_generator:
         res = self.coerce(self.iter_to_val(self.guess_tuple(res, st) if isinstance(res, PyTuple)
@@ -224,6 +225,10 @@ def assign_target(self, target, v, st):
         return
     if isinstance(target, (ast.Tuple, ast.List)):
         v = self.iter_value(v, st)
+        if isinstance(v, Unknown):
+            for t in target.elts:
+                self.assign_target(t, Unknown("unpacked"), st)
+            return
         if isinstance(v, PyTuple):
             if len(v.items) != len(target.elts):
                 raise Untranslatable("unpacking arity mismatch")
@@ -243,6 +248,8 @@ def assign_target(self, target, v, st):
         raise Untranslatable(f"unpacking {v!r}")
     if isinstance(target, ast.Attribute):
         obj, _ = self.ev1(target.value, st)
+        if isinstance(obj, Unknown):
+            return
         if isinstance(obj, Val) and isinstance(obj.t, Obj):
             ft = self.reg.field_type(obj.t.cls, target.attr)
             if ft is None:
@@ -278,12 +285,17 @@ def concretise(self, v, t, st):
         if isinstance(t, Seq):
             return self.materialise(v, st, t.elt)
         return v
-    if isinstance(v, (Val, PyTuple)):
+    if isinstance(v, (Val, PyTuple, Unknown)):
         return self.coerce(v, t, st)
     return v
 
 
 def store_index(self, base, idx, v, st, node):
+    if isinstance(base, Unknown):
+        return
+    if isinstance(idx, Unknown) and isinstance(base, Val) and base.t.mutable:
+        self.havoc_loc(("contents", base), st)
+        return
     if isinstance(base, Val):
         t = base.t
         if isinstance(t, List):
@@ -366,10 +378,7 @@ def do_yield_from(self, node, val, st):
     s2 = st.copy()
     s2.assume(z3.And(0 <= i, i < view.length))
     want = self.c.returns.elt if isinstance(self.c.returns, Seq) else None
-    x = view.at(i)
-    # assumptions attached to the element (generator contracts) were added to st.pc by at(); carry them over
-    for a in st.pc[len(s2.pc) - 1:]:
-        s2.assume(a)
+    x = self.vat(view, i, s2)
     it = self.concretise(x, want, s2) if want is not None else x
     env = dict(self.entry.env)
     env["it"] = it
@@ -506,7 +515,11 @@ def st_Assert(self, s, st):
     mode = getattr(self.cur_contract, "asserts", "prove") if self.cur_contract else "prove"
     for v, s2 in self.ev(s.test, st):
         z = self.truth(v, s2)
-        if mode == "raise":
+        if mode == "assume":
+            self.assume_log(f"code assert assumed (data-dependent, outside this contract's claim): {ast.unparse(s.test)[:70]}")
+            s2.assume(z)
+            yield Outcome("normal", s2)
+        elif mode == "raise":
             zs = simp(z)
             if not z3.is_true(zs):
                 s_f = s2.copy()
@@ -617,7 +630,7 @@ def ghost_exec(self, stmts, st):
 def use_lemma(self, call_src, st):
     """`use lemma_name(args)`: assert the lemma's requires, assume its ensures (the lemma is proved separately)."""
     node = parse_expr(call_src)
-    lem = self.reg.contracts.get("lemma:" + node.func.id)
+    lem = self.reg.contracts.get(node.func.id)
     if lem is None:
         raise ContractError(f"unknown lemma {node.func.id}")
     args = [self.spec_eval(a, st) for a in node.args]
@@ -690,7 +703,7 @@ def exec_loop(self, node, st, iterable):
             if isinstance(cur, tuple) and cur and cur[0] == "listlit":
                 raise Untranslatable(f"list literal {n} mutated in loop: add a locals type hint")
             if not isinstance(cur, Val):
-                if isinstance(cur, (PyConst,)):
+                if isinstance(cur, (PyConst, Unknown)):
                     continue
                 raise Untranslatable(f"loop-carried variable {n} of unsupported kind {cur!r}")
             if cur.t == NoneT:
@@ -727,7 +740,7 @@ def exec_loop(self, node, st, iterable):
         exit_states = [s_exit]
         s_body = h
         s_body.assume(idx < view.length)
-        x = view.at(idx)
+        x = self.vat(view, idx, s_body)
         self.assign_target(node.target, x, s_body)
         body_starts = [s_body]
     else:
@@ -800,7 +813,7 @@ def dry_run_written_keys(self, node, h, is_for, view, idx_name):
     try:
         if is_for:
             i = fresh("dry", z3.IntSort())
-            self.assign_target(node.target, view.at(i), s)
+            self.assign_target(node.target, self.vat(view, i, s), s)
             starts = [s]
         else:
             starts = [s1 for _, s1 in self.ev(node.test, s)]
